@@ -45,6 +45,7 @@ type Symbolizer struct {
 	MaxDepth int
 	active   map[string]bool
 	depth    int
+	globals  map[*ssa.Global][]*ssa.Store
 }
 
 func (p *Prog) NewSymbolizer(expand func(fn *ssa.Function) bool) *Symbolizer {
@@ -284,6 +285,9 @@ func (s *Symbolizer) sym1(fr *frame, v ssa.Value) *Sym {
 	case *ssa.MakeMap:
 		return &Sym{Op: "call", Name: "makemap"}
 	case *ssa.MakeSlice:
+		if k, ok := x.Len.(*ssa.Const); ok && k.Value != nil && k.Int64() == 0 {
+			return &Sym{Op: "list"} // make([]T, 0, n): the empty list
+		}
 		return &Sym{Op: "call", Name: "makeslice"}
 	case *ssa.MakeChan:
 		return &Sym{Op: "call", Name: "makechan", Args: []*Sym{s.sym(fr, x.Size)}}
@@ -321,6 +325,9 @@ func (s *Symbolizer) load(fr *frame, addr ssa.Value) *Sym {
 	case *ssa.IndexAddr:
 		return &Sym{Op: "elem", Args: []*Sym{s.sym(fr, a.X), s.sym(fr, a.Index)}}
 	case *ssa.Global:
+		if v := s.globalInit(a); v != nil {
+			return v
+		}
 		return s.sym(fr, a)
 	case *ssa.Alloc:
 		return s.cell(fr, a, a.Parent())
@@ -338,6 +345,40 @@ func (s *Symbolizer) load(fr *frame, addr ssa.Value) *Sym {
 		return &Sym{Op: "call", Name: "deref", Args: []*Sym{b}}
 	}
 	return &Sym{Op: "call", Name: "deref", Args: []*Sym{s.sym(fr, addr)}}
+}
+
+// globalInit: the value of a package-level variable of the analysed module that is stored exactly once in the
+// whole program, by its package initialiser (a "constant" such as a compiled regular expression): the
+// symbolic form of that initial value. nil when the variable is assigned anywhere else or not initialised.
+func (s *Symbolizer) globalInit(g *ssa.Global) *Sym {
+	if g.Pkg == nil || !strings.HasPrefix(g.Pkg.Pkg.Path(), ModPath) {
+		return nil
+	}
+	if s.globals == nil {
+		s.globals = map[*ssa.Global][]*ssa.Store{}
+		for fn := range s.P.AllFuncs {
+			for _, b := range fn.Blocks {
+				for _, in := range b.Instrs {
+					if st, ok := in.(*ssa.Store); ok {
+						if gg, ok := st.Addr.(*ssa.Global); ok {
+							s.globals[gg] = append(s.globals[gg], st)
+						}
+					}
+				}
+			}
+		}
+	}
+	sts := s.globals[g]
+	if len(sts) != 1 || sts[0].Parent().Name() != "init" || sts[0].Parent().Pkg != g.Pkg {
+		return nil
+	}
+	key := "global:" + g.String()
+	if s.active[key] {
+		return nil
+	}
+	s.active[key] = true
+	defer delete(s.active, key)
+	return s.sym(&frame{fn: sts[0].Parent()}, sts[0].Val)
 }
 
 // cell: the values stored into an address-taken local (in its function and the closures nested in it).
@@ -422,6 +463,17 @@ func (s *Symbolizer) call(fr *frame, c *ssa.Call) *Sym {
 				return &Sym{Op: "concat", Args: parts}
 			}
 		}
+	case "strings.Join":
+		if len(args) == 2 && args[0].Op == "list" && args[1].Op == "lit" {
+			out := &Sym{Op: "concat", Name: "join"}
+			for i, p := range args[0].Args {
+				if i > 0 && args[1].Lit != "" {
+					out.Args = append(out.Args, lit(args[1].Lit))
+				}
+				out.Args = append(out.Args, p)
+			}
+			return out
+		}
 	case "path/filepath.Join":
 		parts := s.variadic(fr, args)
 		if parts != nil {
@@ -462,11 +514,24 @@ func (s *Symbolizer) call(fr *frame, c *ssa.Call) *Sym {
 			}
 		}
 		s.depth--
-		if len(alts) == 1 {
-			return alts[0]
+		// a callee is looked through only when its result is expressible: a result assembled through element
+		// stores into a made slice/map or other untracked memory would silently lose the arguments
+		lossy := false
+		for _, a := range alts {
+			a.Walk(func(z *Sym) bool {
+				if z.Op == "opaque" || (z.Op == "call" && (z.Name == "makeslice" || z.Name == "makemap")) {
+					lossy = true
+				}
+				return !lossy
+			})
 		}
-		if len(alts) > 1 {
-			return &Sym{Op: "phi", Name: "returns:" + FuncName(f), Args: alts}
+		if !lossy {
+			if len(alts) == 1 {
+				return alts[0]
+			}
+			if len(alts) > 1 {
+				return &Sym{Op: "phi", Name: "returns:" + FuncName(f), Args: alts}
+			}
 		}
 	}
 	return out
@@ -783,4 +848,44 @@ func (s *Symbolizer) boundMethod(fr *frame, v ssa.Value) (*ssa.Function, *Sym) {
 		return nil, nil
 	}
 	return m, s.sym(fr, mc.Bindings[0])
+}
+
+// Alts distributes phi nodes that occur at the top level or directly inside concatenations and returns the
+// phi-free alternatives (at most limit; cycles are dropped).
+func (y *Sym) Alts(limit int) []*Sym {
+	switch y.Op {
+	case "phi":
+		var out []*Sym
+		for _, a := range y.Args {
+			if a.Op == "cycle" {
+				continue
+			}
+			out = append(out, a.Alts(limit)...)
+			if len(out) > limit {
+				return out[:limit]
+			}
+		}
+		return out
+	case "concat":
+		outs := []*Sym{{Op: "concat", Name: y.Name}}
+		for _, a := range y.Args {
+			as := a.Alts(limit)
+			if len(as) == 0 {
+				as = []*Sym{a}
+			}
+			var next []*Sym
+			for _, o := range outs {
+				for _, x := range as {
+					n := &Sym{Op: "concat", Name: o.Name, Args: append(append([]*Sym{}, o.Args...), x)}
+					next = append(next, n)
+					if len(next) > limit {
+						break
+					}
+				}
+			}
+			outs = next
+		}
+		return outs
+	}
+	return []*Sym{y}
 }
